@@ -52,6 +52,19 @@ def main(argv=None):
     if a.replay:
         with open(a.replay) as f:
             v = json.load(f)
+        if isinstance(v.get("case"), dict) and "crash_block" in v["case"]:
+            # re-execute the block in a child process: the finding is that the interpreter dies
+            import subprocess
+
+            fam, params = v["case"]["crash_block"]
+            code = ("import sys, json; sys.argv=['x']; from vf import boot, core; core.scratch_dir(); import importlib; "
+                    "mod = importlib.import_module('vf.props.%s'); boot.load(getattr(mod, 'VARIANT', 'plain')); "
+                    "acc = core.Acc(mod.ID, [], stop_at_first=False); mod.run_block(%r, json.loads(%r), acc); print('block finished')" % (pid.lower(), fam, json.dumps(params)))
+            p = subprocess.run([sys.executable, "-c", code], cwd=os.path.dirname(os.path.dirname(os.path.abspath(__file__))), capture_output=True, text=True)
+            bad = p.returncode < 0
+            print("child exit status %d%s" % (p.returncode, " (killed by signal %d)" % -p.returncode if bad else ""))
+            print("replay: %s" % ("violation reproduced" if bad else "no violation"))
+            return 1 if bad else 0
         bad = mod.replay(v["case"], v.get("site"))
         print("replay: %s" % ("violation reproduced" if bad else "no violation"))
         return 1 if bad else 0
